@@ -67,6 +67,20 @@ def _validate(ctx, module, cfg, path, label):
     return False, bad, r
 
 
+def _death(p):
+    """None if the harness process ended by itself; else what killed it.  The harness returns 0, or 2 with a
+    message for its own problems.  A panic of an engine goroutine ends the process with Go's traceback; Pebble's
+    Fatalf (the repository's pebbleLogger) ends it with exit status 1 after a warning on stderr."""
+    err = p.stderr or ""
+    first = [l for l in err.splitlines() if l.startswith("panic:") or l.startswith("fatal error:")]
+    if first:
+        return first[0][:300]
+    if p.returncode == 1:
+        warn = [l for l in err.splitlines() if "level=WARN" in l or "level=ERROR" in l]
+        return "the engine exited the process (os.Exit(1))" + (": " + warn[-1][:300] if warn else "")
+    return None
+
+
 # ------------------------------------------------------------------------------------------- comparer
 def _check_comparer(ctx, binp, rows, quick):
     out = os.path.join(ctx.scratch, "table.json")
@@ -120,10 +134,29 @@ def _check_comparer(ctx, binp, rows, quick):
 # ------------------------------------------------------------------------------------------- engine, spec -> code
 def _replay(ctx, binp, behaviours, obs, label):
     out = os.path.join(ctx.scratch, "replay-%s.json" % label)
-    argv = [binp, "replay", "-in", behaviours, "-out", out, "-par", str(max(4, ctx.cores))]
+    argv = [binp, "replay", "-in", behaviours, "-out", out]
     if obs:
         argv += ["-obs", obs]
-    ctx.run(argv)
+    p = ctx.run(argv + ["-par", str(max(4, ctx.cores))], ok_codes=(0, 1, 2))
+    if p.returncode != 0:
+        why = _death(p)
+        if why is None:
+            raise vf.Inconclusive("replay failed: %s" % (p.stderr or "")[-2000:])
+        # the engine killed the process: find the behaviour (sequential run with a progress file), re-execute it
+        prog = os.path.join(ctx.scratch, "progress-%s" % label)
+        q = ctx.run(argv + ["-par", "1", "-progress", prog], ok_codes=(0, 1, 2))
+        if q.returncode == 0 or _death(q) is None or not os.path.exists(prog):
+            raise vf.Inconclusive("the engine killed the replayer once (%s) but not in a sequential run [%s]" % (why, label))
+        idx = int(open(prog).read())
+        with open(behaviours) as f:
+            beh = [json.loads(l) for i, l in enumerate(f) if i == idx][0]
+        rp = ctx.save_replay("%s-crash.json" % label, {"kind": "behaviour", "path": beh["path"], "probes": []})
+        ok2, bad2, _ = _rerun(ctx, binp, rp, label + "-crash")
+        if ok2:
+            raise vf.Inconclusive("the engine killed the replayer (%s) but the behaviour runs when re-executed alone [%s]" % (why, label))
+        calls = " ".join(c["a"] for c in beh["path"])
+        ctx.violation("real kv.KV ends the process while executing [%s] (%d calls): %s" % (calls[:400], len(beh["path"]), bad2[0][1]), rp)
+        return {"behaviours": idx, "bad": 1, "mismatches": []}
     res = json.load(open(out))
     ctx.replayed += res["behaviours"]
     ctx.log("replayed %d behaviours (%d calls, %d queries) [%s]: %d disagree" %
@@ -171,12 +204,12 @@ def _rerun(ctx, binp, path, label):
     """re-execute a replay file on the real code and let TLC judge the fresh recording; True = accepted"""
     rf = json.load(open(path))
     tp = os.path.join(ctx.scratch, "rerun-%s.ndjson" % label)
-    q = ctx.run([binp, "rerun", "-in", path, "-out", tp], ok_codes=(0, 2))
+    q = ctx.run([binp, "rerun", "-in", path, "-out", tp], ok_codes=(0, 1, 2))
     if q.returncode != 0:
-        crash = [l for l in (q.stderr or "").splitlines() if l.startswith("panic:") or l.startswith("fatal error:")]
-        if not crash:
+        why = _death(q)
+        if why is None:
             raise vf.Inconclusive("rerun failed: %s" % (q.stderr or "")[-2000:])
-        return False, [(0, "the engine crashed the process: " + crash[0][:300])], tp
+        return False, [(0, "the engine ended the process: " + why)], tp
     if rf.get("kind") == "comparer":
         ok, bad, r = _validate(ctx, "SlashOrderTrace", "slash-trace.cfg", tp, "rerun-" + label)
     else:
@@ -187,10 +220,9 @@ def _rerun(ctx, binp, path, label):
 def _crashed(ctx, binp, p, tp, label):
     """the driver process died: if the engine panicked (a background goroutine of Pebble cannot be recovered
     in-process) re-execute the calls recorded so far; a crash that happens again is reported"""
-    err = p.stderr or ""
-    if "panic:" not in err and "fatal error:" not in err:
-        raise vf.Inconclusive("driver failed: %s" % err[-2000:])
-    first = [l for l in err.splitlines() if l.startswith("panic:") or l.startswith("fatal error:")][0]
+    first = _death(p)
+    if first is None:
+        raise vf.Inconclusive("driver failed: %s" % (p.stderr or "")[-2000:])
     lines = [l for l in open(tp).read().splitlines() if l.endswith("}")]
     calls = []
     for l in lines:
@@ -204,8 +236,8 @@ def _crashed(ctx, binp, p, tp, label):
             calls.append(c)
     rp = ctx.save_replay("crash-%s.json" % label, {"kind": "trace", "calls": calls, "panic": first})
     for attempt in range(3):
-        q = ctx.run([binp, "rerun", "-in", rp, "-out", os.path.join(ctx.scratch, "crash-rerun.ndjson")], ok_codes=(0, 2))
-        if q.returncode != 0 and ("panic:" in (q.stderr or "") or "fatal error:" in (q.stderr or "")):
+        q = ctx.run([binp, "rerun", "-in", rp, "-out", os.path.join(ctx.scratch, "crash-rerun.ndjson")], ok_codes=(0, 1, 2))
+        if q.returncode != 0 and _death(q):
             ctx.violation("the engine crashed the process after %d mutations (re-executed: crashes again): %s" % (len(calls), first[:300]), rp)
             return
     raise vf.Inconclusive("the engine crashed the driver (%s) but not on re-execution of the recorded calls" % first[:300])
@@ -213,7 +245,7 @@ def _crashed(ctx, binp, p, tp, label):
 
 def _drive(ctx, binp, rows, n, keys, label, seed):
     tp = os.path.join(ctx.scratch, "trace-%s.ndjson" % label)
-    p = ctx.run([binp, "drive", "-seed", str(seed), "-n", str(n), "-keys", keys, "-adv", rows, "-out", tp], ok_codes=(0, 2))
+    p = ctx.run([binp, "drive", "-seed", str(seed), "-n", str(n), "-keys", keys, "-adv", rows, "-out", tp], ok_codes=(0, 1, 2))
     if p.returncode != 0:
         _crashed(ctx, binp, p, tp, label)
         return tp, False
